@@ -7,6 +7,13 @@ executed on a *counting subclass* of the simulator (every entry of _instruction_
 Oracle, literally the statement: a subclass of PiquassoException is raised, no Result is
 produced, and no simulation step has completed at the time of the raise.
 
+REJECT side, family adaptive_param (mc/c13_adaptive.py): every documented parameter violation whose
+instruction has a _validate rule, delivered through an OUTCOME-DEPENDENT parameter (callable /
+expression string of the earlier outcomes) that is invalid iff the mid-circuit
+ParticleNumberMeasurement returned k, for every k, with shots None / 1 / 2, plus the all-valid
+control.  Oracle: the invalid value was resolved on a branch => PiquassoException and no Result
+("before any evolution" cannot be demanded: the value only exists after the measurement).
+
 ACCEPT side: every instruction of each simulator's docstring "Supported ..." lists (parsed
 from __doc__) x every listed connector x d in 1..4 x cutoff in 1..5 as minimal valid
 programs, and adaptive programs with shots=None (mid-circuit ParticleNumberMeasurement on
